@@ -134,7 +134,10 @@ func (d *Downstream) closeWithError(ctx context.Context, cause error) (err error
 		}
 	}
 
-	resp, err := d.wireConn.SendDownstreamCloseRequest(ctx, &message.DownstreamCloseRequest{
+	d.mu.RLock()
+	wireConn := d.wireConn // replaced when the stream is resumed
+	d.mu.RUnlock()
+	resp, err := wireConn.SendDownstreamCloseRequest(ctx, &message.DownstreamCloseRequest{
 		StreamID: d.ID,
 	})
 	if err != nil {
@@ -229,7 +232,10 @@ func (d *Downstream) ReadMetadata(ctx context.Context) (*DownstreamMetadata, err
 	case <-ctx.Done():
 		return nil, ctx.Err()
 	case meta := <-d.metadataCh:
-		if err := d.wireConn.SendDownstreamMetadataAck(ctx, &message.DownstreamMetadataAck{
+		d.mu.RLock()
+		wireConn := d.wireConn // replaced when the stream is resumed
+		d.mu.RUnlock()
+		if err := wireConn.SendDownstreamMetadataAck(ctx, &message.DownstreamMetadataAck{
 			RequestID:    meta.RequestID,
 			ResultCode:   message.ResultCodeSucceeded,
 			ResultString: "OK",
@@ -587,7 +593,9 @@ func (d *Downstream) resume(parentConn *Conn) error {
 		return fmt.Errorf("invalid state want[%v] but[%v]", streamStatusResuming, d.state)
 	}
 	parentConn.wireConnMu.Lock()
+	d.mu.Lock() // readers of the field (reads, the ack flush, Close) hold the stream's lock
 	d.wireConn = parentConn.wireConn
+	d.mu.Unlock()
 	d.connOutages = parentConn.state.Outages() // read together with the connection it belongs to
 	parentConn.wireConnMu.Unlock()
 
